@@ -1,31 +1,60 @@
-// shim/slotmap.rs: `FHashMap<K, V>` as SLOTS fixed slots (no symbolic length).  The real alias is
-// std::collections::HashMap<K, V, foldhash::fast::RandomState>; the extracted text of the units that
-// include this file uses only default / get / iter / values / insert / collect on it.  More than SLOTS
-// distinct keys is an assertion of the shim (a stated bound of the harness, reported as exit 2).
+// shim/slotmap.rs: `FHashMap<K, V>` as TWO fixed slots on the heap (no symbolic length, no loops).  The real
+// alias is std::collections::HashMap<K, V, foldhash::fast::RandomState>; the extracted text of the units
+// that include this file uses only default / get / iter / values / insert / collect on it.  A third distinct
+// key is an assertion of the shim (a stated bound of the harness, reported as exit 2).
+// Measured on the way here: an association list with conditional pushes (symbolic length) exhausted 14 GB in
+// every harness; inline slots made every move of a layer a ~200-byte copy of nested enums (20 GB in the
+// propositional reduction); slots scanned by `while` loops gave 608 unwindings of next() and 1.1 M steps for
+// a 1+1-layer extend.  Hence: heap slots, straight-line code.
 // Assumption recorded in the evidence: a finite map; iteration order irrelevant to the results computed.
 pub const SLOTS: usize = 2;
-// the slots live on the heap: a layer that embeds the map stays a few words, so moving layers around is
-// cheap for CBMC (an inline [Option<(K, V)>; 2] made every move of a layer a ~200-byte copy of nested
-// enums and the propositional reduction ran out of 20 GB - measured)
-pub struct FHashMap<K, V> { pub slots: Vec<Option<(K, V)>> }
-impl<K, V> Default for FHashMap<K, V> { fn default() -> Self { let mut v = Vec::with_capacity(SLOTS); let mut i = 0; while i < SLOTS { v.push(None); i += 1; } FHashMap { slots: v } } }
-impl<K, V> FHashMap<K, V> { pub fn from_slots(a: Option<(K, V)>, b: Option<(K, V)>) -> Self { let mut v = Vec::with_capacity(SLOTS); v.push(a); v.push(b); FHashMap { slots: v } } }
+pub struct FHashMap<K, V> { pub slots: Box<[Option<(K, V)>; 2]> }
+impl<K, V> Default for FHashMap<K, V> { fn default() -> Self { FHashMap { slots: Box::new([None, None]) } } }
+impl<K, V> FHashMap<K, V> { pub fn from_slots(a: Option<(K, V)>, b: Option<(K, V)>) -> Self { FHashMap { slots: Box::new([a, b]) } } }
 impl<K: PartialEq, V> FHashMap<K, V> {
-    pub fn get(&self, k: &K) -> Option<&V> { let mut i = 0; while i < SLOTS { if let Some((kk, v)) = &self.slots[i] { if *kk == *k { return Some(v); } } i += 1; } None }
+    pub fn get(&self, k: &K) -> Option<&V> {
+        if let Some((kk, v)) = &self.slots[0] { if *kk == *k { return Some(v); } }
+        if let Some((kk, v)) = &self.slots[1] { if *kk == *k { return Some(v); } }
+        None
+    }
     pub fn insert(&mut self, k: K, v: V) -> Option<V> {
-        let mut i = 0;
-        while i < SLOTS { if let Some((kk, vv)) = &mut self.slots[i] { if *kk == k { return Some(std::mem::replace(vv, v)); } } i += 1; }
-        i = 0;
-        while i < SLOTS { if self.slots[i].is_none() { self.slots[i] = Some((k, v)); return None; } i += 1; }
+        if let Some((kk, vv)) = &mut self.slots[0] { if *kk == k { return Some(std::mem::replace(vv, v)); } }
+        if let Some((kk, vv)) = &mut self.slots[1] { if *kk == k { return Some(std::mem::replace(vv, v)); } }
+        if self.slots[0].is_none() { self.slots[0] = Some((k, v)); return None; }
+        if self.slots[1].is_none() { self.slots[1] = Some((k, v)); return None; }
         panic!("SLOTMAP-CAP");
     }
-    pub fn len(&self) -> usize { let mut n = 0; let mut i = 0; while i < SLOTS { if self.slots[i].is_some() { n += 1; } i += 1; } n }
+    pub fn len(&self) -> usize { self.slots[0].is_some() as usize + self.slots[1].is_some() as usize }
     pub fn is_empty(&self) -> bool { self.len() == 0 }
     pub fn iter(&self) -> FHashMapIter<'_, K, V> { FHashMapIter { m: self, i: 0 } }
     pub fn values(&self) -> FHashMapValues<'_, K, V> { FHashMapValues { m: self, i: 0 } }
 }
-pub struct FHashMapIter<'a, K, V> { m: &'a FHashMap<K, V>, i: usize }
-impl<'a, K, V> Iterator for FHashMapIter<'a, K, V> { type Item = (&'a K, &'a V); fn next(&mut self) -> Option<Self::Item> { while self.i < SLOTS { let j = self.i; self.i += 1; if let Some((k, v)) = &self.m.slots[j] { return Some((k, v)); } } None } }
-pub struct FHashMapValues<'a, K, V> { m: &'a FHashMap<K, V>, i: usize }
-impl<'a, K, V> Iterator for FHashMapValues<'a, K, V> { type Item = &'a V; fn next(&mut self) -> Option<Self::Item> { while self.i < SLOTS { let j = self.i; self.i += 1; if let Some((_, v)) = &self.m.slots[j] { return Some(v); } } None } }
-impl<K: PartialEq, V> FromIterator<(K, V)> for FHashMap<K, V> { fn from_iter<I: IntoIterator<Item = (K, V)>>(it: I) -> Self { let mut m = FHashMap::default(); for (k, v) in it { m.insert(k, v); } m } }
+pub struct FHashMapIter<'a, K, V> { m: &'a FHashMap<K, V>, i: u8 }
+impl<'a, K, V> Iterator for FHashMapIter<'a, K, V> {
+    type Item = (&'a K, &'a V);
+    fn next(&mut self) -> Option<Self::Item> {
+        if self.i == 0 { self.i = 1; if let Some((k, v)) = &self.m.slots[0] { return Some((k, v)); } }
+        if self.i == 1 { self.i = 2; if let Some((k, v)) = &self.m.slots[1] { return Some((k, v)); } }
+        None
+    }
+}
+pub struct FHashMapValues<'a, K, V> { m: &'a FHashMap<K, V>, i: u8 }
+impl<'a, K, V> Iterator for FHashMapValues<'a, K, V> {
+    type Item = &'a V;
+    fn next(&mut self) -> Option<Self::Item> {
+        if self.i == 0 { self.i = 1; if let Some((_, v)) = &self.m.slots[0] { return Some(v); } }
+        if self.i == 1 { self.i = 2; if let Some((_, v)) = &self.m.slots[1] { return Some(v); } }
+        None
+    }
+}
+impl<K: PartialEq, V> FromIterator<(K, V)> for FHashMap<K, V> {
+    fn from_iter<I: IntoIterator<Item = (K, V)>>(it: I) -> Self {
+        // at most two items fit; a third is the capacity assertion inside insert
+        let mut m = FHashMap::default();
+        let mut it = it.into_iter();
+        if let Some((k, v)) = it.next() { m.insert(k, v); } else { return m; }
+        if let Some((k, v)) = it.next() { m.insert(k, v); } else { return m; }
+        if let Some((k, v)) = it.next() { m.insert(k, v); }
+        m
+    }
+}
